@@ -41,6 +41,7 @@ ENTRY_ITEMS = [[0, 1, 2, 3, 4], [10, 11, 12, 13]]
 def units(tier):
     g = 8 if tier == 'quick' else 10
     out = []
+    out.append({'fam': 'sharedlist'})
     out.append({'fam': 'entry'})
     for w in range(1, g + 1):
         for s in range(1, g + 1):
@@ -79,6 +80,9 @@ def units(tier):
 
 
 def cases(unit):
+    if unit.get('fam') == 'sharedlist':
+        yield {'fam': 'sharedlist'}
+        return
     if unit.get('fam') == 'entry':
         # the operator reached through the `sources=` entry point of with_store: two live sources share one store
         for si in range(len(ENTRY_SPECS)):
@@ -172,6 +176,13 @@ def _close_order_differs(lts, log):
 
 
 def run_case(case, acc):
+    if case.get('fam') == 'sharedlist':
+        # one list object used as the pipeline of two operators
+        import rxsci as rs
+        d = harness.shared_list_problem(lambda L: rs.data.roll(2, 1, L), lambda L: rs.data.roll(3, 3, L), [0, 1, 2, 3, 4, 5, 6])
+        acc.evals += 3
+        acc.count('shared_pipeline_lists')
+        return [viol('sharedlist|pipeline-list-shared-by-two-operators', d)] if d else []
     if case.get('fam') == 'entry':
         specs = [ENTRY_SPECS[case['spec']], ENTRY_OTHER]
         acc.evals += 1
